@@ -288,6 +288,9 @@ def main_():
                 [rng.uniform(-5, 5) for _ in range(3)]
             ops.append((kind, rng.choice([1.0, 2.0, 2.0, 0.5, 10.0]), vec, rng.choice([0, 0, 1, 2, 4])))
         scales = [(rng.choice([0.5, 2.0, 0.01, 3.3]), rng.choice([0, 0, 2]))] if rng.random() < 0.5 else []
+        if scales and rng.random() < 0.5:
+            # the same object scaled more than once (global and tagged, or twice)
+            scales.append((rng.choice([3.0, 0.25]), rng.choice([0, 1, 2, 5])))
         spec = {'ops': ops, 'scales': scales}
         try:
             add(check_transform(spec))
